@@ -348,6 +348,10 @@ def vf2pp_all_isomorphisms(
     inverted_mapping = state.inverted_mapping
     termination_length = len(g1)
 
+    if termination_length == 0:
+        yield {}  # the only mapping between two graphs without atoms
+        return
+
     # Initialize the stack
     node_order: list[AtomId] = _matching_order(params)
     candidates: set[AtomId] = find_candidates(node_order[0], state, params)
